@@ -158,7 +158,7 @@ class HistoryRun:
                     before = dmp
                     target = (dmp or {}).get("saves_done", 0) + 2 if isinstance(dmp, dict) else 2
                     t0 = time.time()
-                    while time.time() - t0 < 6:
+                    while time.time() - t0 < 12:
                         st, dd = srv_.dump()
                         if st == "ok" and dd["saves_done"] >= target:
                             break
